@@ -443,7 +443,22 @@ func boolAtoms(v ssa.Value, atoms *[]ssa.Value, seen map[ssa.Value]bool) {
 
 func (c *Ctx) ruleR16b(rule string) {
 	c.R.Rule(rule, "SepBy: lookup(i) is the value parser for even i and the separator for odd i; the length predicate accepts exactly len == 0 (when empty is allowed) and odd lengths", 2)
-	fn := c.P.Func("combinator.newSepBy")
+	// the constructor shared by the exported SepBy and SepBy1
+	var fn *ssa.Function
+	if sb := c.P.Func("combinator.SepBy"); sb != nil {
+		for _, call := range ssax.Calls(sb) {
+			if sc := call.Common().StaticCallee(); sc != nil && c.P.InLib(sc) && sc.Signature.Results().Len() == 1 {
+				fn = sc
+			}
+		}
+		for _, b := range sb.Blocks {
+			for _, in := range b.Instrs {
+				if _, ok := in.(*ssa.MakeClosure); ok {
+					fn = sb // SepBy builds the sequence itself
+				}
+			}
+		}
+	}
 	if fn == nil {
 		c.R.Fail("coverage-lost", rule, "combinator.newSepBy", "-", "-", "function not found")
 		return
